@@ -7,7 +7,7 @@ import os
 import re
 import sys
 
-from . import pipeline
+from . import pipeline, tables
 from .facts import AnalysisIncomplete, Facts
 
 VERIF = pipeline.VERIF
@@ -276,6 +276,7 @@ def prop_C02(rep: Report, tier):
         if cfg == 'full':
             ctx.floor('C02 construction sites', n, fl.get('obligations', 1))
         std_assumptions(rep, ctx)
+        tables.range_constants(rep, ctx.facts)
     rep.explanation = ('every construction of a value of the six range-carrying types (tuple-struct aggregate, including inside the '
                        'unsafe *_unchecked constructors, analysed in the context of each caller) has a count proved inside the documented range')
 
@@ -297,9 +298,38 @@ def prop_contracts(pid, explanation):
     return run
 
 
-EXTRA_RULES = {}
+def extra_C10(rep, ctx):
+    tables.c10_tables(rep, ctx.facts)
+
+
+def extra_C11(rep, ctx):
+    tables.c11_tables(rep, ctx.facts)
+
+
+def prop_tables(pid, fn, explanation):
+    def run(rep: Report, tier):
+        for cfg in tier_cfgs(tier):
+            ctx = Ctx(cfg)
+            rep.configs.append(cfg)
+            fn(rep, ctx)
+            contract_records(rep, ctx, pid)
+            extra = EXTRA_RULES.get(pid)
+            if extra:
+                extra(rep, ctx)
+            std_assumptions(rep, ctx)
+        rep.explanation = explanation
+    return run
+
+
+EXTRA_RULES = {'C10': extra_C10, 'C11': extra_C11}
 
 PROPS = {
+    'C01': prop_tables('C01', lambda rep, ctx: tables.c01_tables(rep, ctx.facts),
+                       'calendar tables and anchors equal the Gregorian rule entry by entry; acceptance decision lists; day-number gate'),
+    'C04': prop_tables('C04', lambda rep, ctx: tables.c04_tables(rep, ctx.facts),
+                       'every string/offset table used by the formatter equals its generating rule entry by entry'),
+    'C10': prop_contracts('C10', 'truncation characterised by congruence + remainder range per unit; offset tables entry by entry'),
+    'C11': prop_contracts('C11', 'rounding thresholds, offset tables and error regions per unit'),
     'C02': prop_C02,
     'C03': prop_C03,
     'C07': prop_contracts('C07', 'affine-form and range contracts of DESIGN Appendix A for Timestamp::new/extract, Time::extract/try_from_hms/is_valid and the accessors, on every exit state'),
